@@ -13,6 +13,9 @@
 //	    (pub / both) names the first attachment as its photo, desc.private (priv / both) changes the
 //	    subscription; k: the k-th adapter call of the request is made to fail (memverif.SetFault).
 //	    Answer: SETX code=<c> calls=<adapter calls of the request> | ref=<upload the stored public names>
+//	NEWACCX <u> <k|-> <tpls>
+//	    {acc user="new"} with extra.attachments from a session that is not logged in, the k-th adapter call of
+//	    the request made to fail.  Answer: NEWACCX code=<c> calls=<adapter calls: Q,C,H,A,D,L> | user=<0|1>
 //
 // Same VERIF_IN / VERIF_OUT stream as zz_verif_c16_test.go (hooked from its line()); the model runner
 // is harness/runner/r_c16.ml.
@@ -20,6 +23,7 @@ package main
 
 import (
 	"bytes"
+	"encoding/base64"
 	"encoding/json"
 	"mime/multipart"
 	"net/http"
@@ -28,8 +32,10 @@ import (
 	"strconv"
 	"strings"
 
+	"github.com/tinode/chat/server/auth"
 	"github.com/tinode/chat/server/db/memverif"
 	"github.com/tinode/chat/server/store"
+	"github.com/tinode/chat/server/store/types"
 )
 
 // download request line with every field of the upload request
@@ -225,6 +231,16 @@ func callLettersC16c() string {
 			c = "S"
 		case "FileLinkAttachments":
 			c = "L"
+		case "AuthGetUniqueRecord":
+			c = "Q"
+		case "UserCreate":
+			c = "C"
+		case "TopicShare":
+			c = "H"
+		case "AuthAddRecord":
+			c = "A"
+		case "UserDelete":
+			c = "D"
 		}
 		// every other adapter call of the request appears under its own name: the model has none
 		if failed {
@@ -297,8 +313,49 @@ func (d *c16Drv) setxC16c(w []string) string {
 	return "SETX code=" + c16Code(c) + " calls=" + calls + " | ref=" + ref
 }
 
+func (d *c16Drv) newaccxC16c(w []string) string {
+	u, _ := strconv.Atoi(w[1])
+	d.sess[u] = vNewSession(700+u, types.ZeroUid, auth.LevelNone)
+	id := d.nextID()
+	secret := base64.StdEncoding.EncodeToString([]byte("verif" + id + ":password" + id))
+	urls := d.expandList(w[3])
+	pub := map[string]any{"fn": "n" + w[1]}
+	if len(urls) > 0 {
+		pub["photo"] = map[string]any{"ref": urls[0], "type": "image/png"}
+	}
+	before := len(memverif.DumpUsersC16c())
+	memverif.ResetCallLog()
+	if w[2] != "-" {
+		k, _ := strconv.Atoi(w[2])
+		memverif.SetFault(k, false)
+	}
+	c := d.send(u, id, `{"acc":{"id":"`+id+`","user":"new","scheme":"basic","secret":"`+secret+
+		`","login":false,"desc":{"public":`+vJSON(pub)+`}}`+c16Extra(urls)+`}`)
+	memverif.ClearFault()
+	calls := callLettersC16c()
+	delete(d.sess, u)
+	after := len(memverif.DumpUsersC16c())
+	made := "0"
+	if after > before {
+		made = "1"
+	}
+	if c != nil && c.Code == 201 {
+		p, _ := c.Params.(map[string]any)
+		name, _ := p["user"].(string)
+		uid := types.ParseUserId(name)
+		if uid.IsZero() {
+			return "NEWACCX driver-nouser"
+		}
+		d.users[u] = uid
+		d.sess[u] = vNewSession(u, uid, auth.LevelAuth)
+	}
+	return "NEWACCX code=" + c16Code(c) + " calls=" + calls + " | user=" + made
+}
+
 func (d *c16Drv) c16cLine(w []string) (string, bool) {
 	switch w[0] {
+	case "NEWACCX":
+		return d.newaccxC16c(w), true
 	case "SVX":
 		return d.svxC16c(vKV(w[1:])), true
 	case "SETX":
